@@ -116,6 +116,8 @@ pub enum GExpr {
     // ---- nodes used only by the semantic mutator (C13): not in the must-agree fragment
     /// a single token printed verbatim
     Raw(String),
+    /// a named output used as a value: its position among the transaction's outputs
+    OutputPos(usize),
     /// name(args..) with any arity
     Call(String, Vec<GExpr>),
     /// constructor written with explicit names: head tokens, (field name, value), spread
@@ -316,6 +318,7 @@ impl<'p> Printer<'p> {
             GExpr::Party(i) => self.t(&self.prog.parties[*i].clone()),
             GExpr::Policy(i) => self.t(&self.prog.policies[*i].name.clone()),
             GExpr::Input(i) => self.t(&tx.inputs[*i].name.clone()),
+            GExpr::OutputPos(i) => self.t(&tx.outputs[*i].name.clone().unwrap_or_else(|| "unnamed_output".into())),
             GExpr::Local(i) => self.t(&tx.locals[*i].0.clone()),
             GExpr::Fees => self.t("fees"),
             GExpr::Add(a, b) => {
